@@ -619,12 +619,28 @@ func (c *fctx) callTranslated(x *ast.CallExpr, callee *fnInfo) (pre []string, te
 			c.failf(x, "call of %s, which returns a struct", callee.obj.FullName())
 		}
 	}
-	if callee.recvStruct != nil {
-		c.failf(x, "call of %s, a method of a pointer to a struct with fields", callee.obj.FullName())
+	sameRecv := c.sameRecvCall(x, callee)
+	if callee.recvStruct != nil && !sameRecv {
+		c.failf(x, "call of %s, a method of a pointer to a struct with fields (only p.M(...) for the caller's own receiver p is translated)", callee.obj.FullName())
 	}
+	c.checkNoAliasArgs(x, callee)
 	var head []string
 	var args []string
 	var pats []string
+	var post []string
+	var recvArgs []string
+	if sameRecv {
+		// p.M(...) for the caller's own pointer receiver p: the callee gets the nil flag and the
+		// current fields, its final fields are the caller's afterwards (a method call through a nil
+		// pointer is not itself a panic)
+		c.noteMut(x)
+		recvArgs = append(recvArgs, c.readVar(c.isnilName()))
+		for _, fv := range callee.recvFields {
+			n := c.fieldName(c.f.recvStruct, fv)
+			recvArgs = append(recvArgs, c.readVar(n))
+			pats = append(pats, c.assignVar(n))
+		}
+	}
 	// which of the caller's abstract objects each abstract object of the callee is
 	absArg := func(calleeRoot *absRoot, e ast.Expr) string {
 		root, path := c.absPath(e)
@@ -674,17 +690,15 @@ func (c *fctx) callTranslated(x *ast.CallExpr, callee *fnInfo) (pre []string, te
 		}
 		if callee.mutated[i] {
 			c.noteMut(x)
-			var n string
-			switch {
-			case isByteSlice(p.Type()):
-				id, ok := ast.Unparen(a).(*ast.Ident)
-				if !ok {
-					c.failf(a, "argument for a parameter the callee stores into must be a []byte parameter of the caller")
-				}
-				n = c.mutParamName(id)
-			default:
-				n = c.threadedArg(a, p)
+			if isByteSlice(p.Type()) {
+				pp, arg, pat, po := c.mutSliceArg(a)
+				pre = append(pre, pp...)
+				pargs = append(pargs, arg)
+				pats = append(pats, pat)
+				post = append(post, po...)
+				continue
 			}
+			n := c.threadedArg(a, p)
 			pargs = append(pargs, c.readVar(n))
 			pats = append(pats, c.assignVar(n))
 			continue
@@ -718,6 +732,7 @@ func (c *fctx) callTranslated(x *ast.CallExpr, callee *fnInfo) (pre []string, te
 	if recvArg != "" {
 		args = append(args, recvArg)
 	}
+	args = append(args, recvArgs...)
 	args = append(args, pargs...)
 	for i := 0; i < callee.flatResultCount(); i++ {
 		t := c.fresh()
@@ -730,6 +745,7 @@ func (c *fctx) callTranslated(x *ast.CallExpr, callee *fnInfo) (pre []string, te
 	}
 	all := append(append([]string{name}, head...), args...)
 	pre = append(pre, fmt.Sprintf("do %s <- %s;", pat, strings.Join(all, " ")))
+	pre = append(pre, post...)
 	return pre, terms
 }
 
@@ -871,6 +887,11 @@ func (c *fctx) carriedOf(fr *loopFrame, s *ast.ForStmt) []string {
 					for j, m := range callee.mutated {
 						if m && j < len(x.Args) {
 							add(x.Args[j])
+						}
+					}
+					if c.sameRecvCall(x, callee) {
+						for _, fv := range callee.recvFields {
+							set[c.fieldName(c.f.recvStruct, fv)] = true
 						}
 					}
 					if sel, ok := ast.Unparen(x.Fun).(*ast.SelectorExpr); ok && callee.recv != nil {
